@@ -57,7 +57,7 @@ func (c CutCase) Coq() string {
 	return fmt.Sprintf("(mkfcase %d %s %s %d %d %s %s %s %d %d %d %d %s %s %d %d %d %d %s %s %s %s)",
 		fr, coqfmt.Bool(c.End == "rst" || c.End == "tlscut" || c.End == "corrupt"), coqfmt.Bool(c.Full), c.UpStatus, c.BodySent, bodyRef,
 		coqfmt.Bytes(c.Raw), coqfmt.Bool(c.ClientEnd == "eof"), verdictN(c.Go.Verdict), c.Go.Status, c.Go.BodyLen, c.Go.RestLen,
-		coqfmt.Bool(hasErrHdr), coqfmt.Bool(c.HarnessErr == ""), c.K, c.HeadLen, c.ReplyLen, minor, coqfmt.Bool(closed), coqfmt.Bool(c.Route == "connect-reject"), coqfmt.Bool(c.Route == "handler"), coqfmt.Bool(c.End == "tlscut"))
+		coqfmt.Bool(hasErrHdr), coqfmt.Bool(c.HarnessErr == ""), c.K, c.HeadLen, c.ReplyLen, minor, coqfmt.Bool(closed), coqfmt.Bool(c.Route == "connect-reject"), coqfmt.Bool(c.Route == "handler" || c.Route == "bodylog-handler"), coqfmt.Bool(c.End == "tlscut"))
 }
 
 // CutBodyCoq is the Gallina definition of the shared body constant.
@@ -193,6 +193,21 @@ func CutCases(tier string) []CutCase {
 			}
 		}
 	}
+	// HTTP log mode "body": the logger has read the whole body (or failed to) before the response is written
+	for _, route := range []string{"bodylog", "bodylog-handler"} {
+		for _, framing := range []string{"length", "chunked", "close"} {
+			reply, hl := cutReply(framing)
+			for _, end := range []string{"fin", "rst"} {
+				for k := 0; k <= len(reply); k++ {
+					if tier != "thorough" && k != len(reply) && k != hl && (k%8 != 0 || k < hl && k%40 != 0) {
+						continue
+					}
+					out = append(out, CutCase{Name: fmt.Sprintf("cut-%s-%s-HTTP/1.1-%s-%d", route, framing, end, k),
+						Route: route, Framing: framing, Proto: "HTTP/1.1", Method: "GET", K: k, End: end})
+				}
+			}
+		}
+	}
 	for _, route := range []string{"tls", "mitm"} {
 		for _, framing := range []string{"length", "chunked", "close"} {
 			reply, hl := cutReply(framing)
@@ -223,6 +238,8 @@ type CutRig struct {
 	originTLS *Peer
 	upstream  *Peer
 	handlerRig *Rig
+	bodyLogRig *Rig // log mode "body", also through the http.Handler (bodyLogHRig)
+	bodyLogHRig *Rig
 	rejecter  *Peer // upstream proxy that rejects every CONNECT with a reply cut as its target host name says
 	rejRig    *Rig
 }
@@ -405,6 +422,12 @@ func NewCutRig() (*CutRig, error) {
 	if cr.handlerRig, err = New(Options{Handler: true}); err != nil {
 		return nil, err
 	}
+	if cr.bodyLogRig, err = New(Options{LogHTTPBody: true}); err != nil {
+		return nil, err
+	}
+	if cr.bodyLogHRig, err = New(Options{LogHTTPBody: true, Handler: true}); err != nil {
+		return nil, err
+	}
 	if cr.tlsRig, err = New(Options{InsecureUpstream: true}); err != nil {
 		return nil, err
 	}
@@ -423,6 +446,8 @@ func (cr *CutRig) Close() {
 	cr.rejRig.Close()
 	cr.rejecter.Close()
 	cr.handlerRig.Close()
+	cr.bodyLogRig.Close()
+	cr.bodyLogHRig.Close()
 	cr.origin.Close()
 	cr.originTLS.Close()
 	cr.upstream.Close()
@@ -462,6 +487,10 @@ func (cr *CutRig) Run(c *CutCase) {
 		rig = cr.rejRig
 	case "handler":
 		rig = cr.handlerRig
+	case "bodylog":
+		rig = cr.bodyLogRig
+	case "bodylog-handler":
+		rig = cr.bodyLogHRig
 	}
 	raw, err := Dial(rig.Addr)
 	if err != nil {
